@@ -17,6 +17,16 @@ fn print_real(v: &Value, o: &POpts) -> Result<String, String> {
 	guard(|| v.print_with(ro).to_string())
 }
 
+/// `Print::fmt_with` called by a caller that is itself at depth `self.2`
+/// (what a user-defined `Print` type embedding a value does).
+struct AtDepth<'a, T: Print>(&'a T, json_syntax::print::Options, usize);
+
+impl<'a, T: Print> std::fmt::Display for AtDepth<'a, T> {
+	fn fmt(&self, f: &mut std::fmt::Formatter) -> std::fmt::Result {
+		self.0.fmt_with(f, &self.1, self.2)
+	}
+}
+
 fn opts_json(o: &POpts) -> serde_json::Value {
 	let ind = match o.indent {
 		PIndent::Spaces(n) => json!({"spaces": n}),
@@ -420,6 +430,24 @@ impl PrintMon {
 				),
 				Err(p) => self.rep.violation("C04:panic", format!("[{}] parse_str panicked on printed text: {}", fam, p), case_json("print", r, o)),
 			}
+			// ... through the byte-slice entry point as well
+			match guard(|| Value::parse_slice(text.as_bytes())) {
+				Ok(Ok((back, _))) => {
+					if back != *v {
+						self.rep.violation(
+							"C04:round-trip-differs:parse_slice",
+							format!("[{}] `{}` parses back (parse_slice) to {:?}, original {:?} (options {})", fam, show(text.as_bytes()), trunc(&to_rval(&back)), trunc(r), opts_json(o)),
+							case_json("print", r, o),
+						);
+					}
+				}
+				Ok(Err(e)) => self.rep.violation(
+					"C04:reparse-fails:parse_slice",
+					format!("[{}] parse_slice rejects the printed text `{}`: {:?} (options {})", fam, show(text.as_bytes()), e, opts_json(o)),
+					case_json("print", r, o),
+				),
+				Err(p) => self.rep.violation("C04:panic", format!("[{}] parse_slice panicked on printed text: {}", fam, p), case_json("print", r, o)),
+			}
 			// 3. options change insignificant whitespace only
 			let mut want = String::new();
 			pr::compact(r, &mut want);
@@ -438,6 +466,42 @@ impl PrintMon {
 			self.rep.count("layouts_compared", 1);
 			if want.contains('\n') {
 				self.rep.count("layouts_with_expanded_containers", 1);
+			}
+			// the value embedded at a deeper level through the public `fmt_with`, and printed through the
+			// forwarding impls (&T, Meta, Stripped)
+			if self.rep.evaluations % 3 == 0 || want.len() < 40 {
+				for depth in [1usize, 4] {
+					let ro = o.to_real();
+					let mut want_d = String::new();
+					pr::layout(r, o, depth, &mut want_d);
+					let forms: [(&str, Result<String, String>); 3] = [
+						("Value::fmt_with", guard(|| AtDepth(v, ro.clone(), depth).to_string())),
+						("<&Value>::fmt_with", guard(|| AtDepth(&v, ro.clone(), depth).to_string())),
+						("Meta<Value, M>::fmt_with", guard(|| AtDepth(&locspan::Meta(v.clone(), 0u8), ro.clone(), depth).to_string())),
+					];
+					for (what, got) in forms {
+						self.rep.count("layouts_compared_at_a_base_depth", 1);
+						if got.as_deref() != Ok(want_d.as_str()) {
+							self.rep.violation(
+								"C13:layout-differs:fmt_with",
+								format!("[{}] value {} under {} through {} at depth {}: printed {:?}, documented layout `{}`", fam, show(doc_of(r).as_bytes()), opts_json(o), what, depth, got.map(|g| show(g.as_bytes())), show(want_d.as_bytes())),
+								case_json("print", r, o),
+							);
+							break;
+						}
+					}
+				}
+				let ro = o.to_real();
+				let via_ref = guard(|| (&v).print_with(ro.clone()).to_string());
+				let via_meta = guard(|| locspan::Meta(v.clone(), ()).print_with(ro.clone()).to_string());
+				let via_stripped = guard(|| locspan::Stripped(v.clone()).print_with(ro.clone()).to_string());
+				if via_ref.as_deref() != Ok(want.as_str()) || via_meta.as_deref() != Ok(want.as_str()) || via_stripped.as_deref() != Ok(want.as_str()) {
+					self.rep.violation(
+						"C13:layout-differs:forwarding-impl",
+						format!("[{}] value {} under {}: &Value prints {:?}, Meta {:?}, Stripped {:?}; documented layout `{}`", fam, show(doc_of(r).as_bytes()), opts_json(o), via_ref, via_meta, via_stripped, show(want.as_bytes())),
+						case_json("print", r, o),
+					);
+				}
 			}
 			if text != want {
 				self.rep.violation(
